@@ -1449,3 +1449,85 @@ func c07decoderAcceptsEveryScale(c *an.Ctx) {
 		return true
 	})
 }
+
+func init() {
+	old := All["C07"].Run
+	All["C07"].Run = func(c *an.Ctx) {
+		old(c)
+		c07floatsComparedByBits(c)
+	}
+	All["C07"].Rules += " R13"
+	addLevel("C07", "the float encoders decide 'same value' / 'zero value' shortcuts on bit patterns, not with float == (-0.0 == 0.0 holds, the shortcut then stores +0.0 for a -0.0).")
+}
+
+// c07floatsComparedByBits — C07.R13.  A float column must read back bit-identical, -0.0 included.
+// The encoders have shortcuts that store one value for a run ("same") or nothing for a zero; the
+// decision must be taken on the bit pattern: with the float comparison `-0.0 == 0.0` a column that
+// mixes the two is stored as all +0.0.
+func c07floatsComparedByBits(c *an.Ctx) {
+	r := c.Rule("C07.R13", "K-CONVLINT", "lib/compress, lib/compress/mlf: the run / zero detection of the float encoders compares bit patterns (no float ==, != between values or with 0)")
+	isF64 := func(info *types.Info, e ast.Expr) bool {
+		t := info.TypeOf(e)
+		return t != nil && types.Identical(t.Underlying(), types.Typ[types.Float64])
+	}
+	n := 0
+	for _, spec := range []string{"lib/compress:GenerateContext", "lib/compress:RLE.SameValueEncoding", "lib/compress/mlf:prepare", "lib/compress/mlf:Compressor.encode"} {
+		f := fn(r, spec)
+		if f == nil {
+			continue
+		}
+		ast.Inspect(f.Body, func(m ast.Node) bool {
+			be, ok := m.(*ast.BinaryExpr)
+			if !ok || (be.Op != token.EQL && be.Op != token.NEQ) || !isF64(f.Info, be.X) || !isF64(f.Info, be.Y) {
+				return true
+			}
+			// a comparison of two values of the column, or of a value with the constant 0
+			zero := func(e ast.Expr) bool {
+				tv, ok := f.Info.Types[e]
+				return ok && tv.Value != nil && constant.Sign(tv.Value) == 0
+			}
+			isVal := func(e ast.Expr) bool {
+				switch x := ast.Unparen(e).(type) {
+				case *ast.IndexExpr:
+					return true
+				case *ast.Ident:
+					// the value variable of a range over the column
+					if v, ok := f.Info.Uses[x].(*types.Var); ok {
+						if rs, ok := rangeValueStmt(f, v); ok && rs != nil {
+							return true
+						}
+					}
+				}
+				return false
+			}
+			if (isVal(be.X) && (isVal(be.Y) || zero(be.Y))) || (isVal(be.Y) && zero(be.X)) {
+				n++
+				// only decisions that choose an encoding shortcut matter: the sampling loop that merely
+				// skips zeros when it estimates the decimal precision is a heuristic
+				if f.Src.Obj.Name() == "GenerateContext" && zero(be.Y) {
+					return true
+				}
+				r.Fail(f.Name+": float "+be.Op.String()+" on "+types.ExprString(be), c.P.Pos(be.Pos()), "%s decides an encoding shortcut with the float comparison `%s`: -0.0 and +0.0 compare equal, the column is then stored as if it held one of them only and -0.0 reads back as +0.0", f.Name, types.ExprString(be))
+			}
+			return true
+		})
+	}
+	r.AddSites(n)
+	r.Floor(2, "float equality decisions in the encoders' context builders")
+}
+
+// rangeValueStmt reports whether v is the value variable of a range statement of f.
+func rangeValueStmt(f *an.Fn, v *types.Var) (*ast.RangeStmt, bool) {
+	var out *ast.RangeStmt
+	ast.Inspect(f.Body, func(m ast.Node) bool {
+		rs, ok := m.(*ast.RangeStmt)
+		if !ok || rs.Value == nil {
+			return true
+		}
+		if id, ok := rs.Value.(*ast.Ident); ok && f.Info.Defs[id] == v {
+			out = rs
+		}
+		return true
+	})
+	return out, out != nil
+}
